@@ -113,7 +113,10 @@ func Load(patterns []string, options ...func(c *packages.Config)) (*Universe, er
 	}
 
 	for i := range pkgs {
-		register(pkgs[i])
+		// a root may already be registered as a dependency of an earlier root
+		if _, ok := u.pkgs[pkgs[i].PkgPath]; !ok {
+			register(pkgs[i])
+		}
 	}
 
 	u.localPkgPaths = localPkgPaths
